@@ -1,4 +1,5 @@
 // `hist`: single-thread API histories against the shadow model (C01 C03 C04 C05 C06 C10 C12 C13 C17 ...).
+#include <sys/wait.h>
 #include <sys/prctl.h>
 #include "hist_exec3.hpp"
 #include "hist_gen.hpp"
@@ -20,10 +21,13 @@ static Profile profile_for(const std::string& mode) {
 struct HistHarness : eng::Harness {
   std::vector<std::string> flag_names() override { return std::vector<std::string>(FLAG_NAMES, FLAG_NAMES + F_NFLAGS); }
   std::vector<std::string> counter_names() override { return std::vector<std::string>(COUNTER_NAMES, COUNTER_NAMES + C_NCOUNTERS); }
-  void zygote_init(const std::string&) override {
+  void zygote_init(const std::string& zmode) override {
     // transparent huge pages make every first touch zero 2 MiB (13x slower cases); disabled at the OS level, the allocator code path is unchanged
     prctl(PR_SET_THP_DISABLE, 1, 0, 0, 0);
-    init_classes(); init_strsrc(); vf_clock_virtual(1); }
+    init_classes(); init_strsrc(); vf_clock_virtual(1);
+    if (zmode == "C07") {   // learned in a throw-away child so that the zygote (and with it every case) still starts with an untouched allocator
+      int fd[2]; if (pipe(fd) == 0) { pid_t pid = fork(); if (pid == 0) { learn_thread_metadata_len(); size_t buf[8] = { 0 }; size_t n = std::min<size_t>(g_td_lens.size(), 7); buf[0] = n; for (size_t i = 0; i < n; i++) buf[1 + i] = g_td_lens[i]; ssize_t w = write(fd[1], buf, sizeof buf); (void)w; _exit(0); }
+        close(fd[1]); size_t buf[8] = { 0 }; if (pid > 0 && read(fd[0], buf, sizeof buf) == (ssize_t)sizeof buf) for (size_t i = 0; i < buf[0] && i < 7; i++) g_td_lens.push_back(buf[1 + i]); close(fd[0]); if (pid > 0) waitpid(pid, nullptr, 0); } } }
   // C07: fault enumeration. Workload j = idx / PER is probed fault-free once (OS calls per kind up to `recover`), then every
   // (kind, k, once|persistent) with k below the measured count is one case; slots beyond the list are skipped.
   struct { uint64_t wl = UINT64_MAX; Case base; std::vector<std::tuple<int, long, int>> list; } c07;
